@@ -3,28 +3,31 @@
 # For each /tmp/seed_out/<prop>/{A,B}.diff: applies, builds, runs the unedited test suite (must pass), builds the demo against the
 # changed tree (must fail), reverts, rebuilds, runs the demo again (must pass).
 W=/tmp/confirm_wt
+SRC=${SEED_SRC:-/tmp/seed_out}   # where the sub-agent outputs are;  SEED_RENAME='A:C B:D' stores A.diff as <P>-C ...
 if [ ! -d $W ]; then git -C /repo worktree add -f $W HEAD >/dev/null 2>&1; cmake -G Ninja -B $W/_build -S $W -DASL_TESTS=ON -DCMAKE_BUILD_TYPE=RelWithDebInfo >/dev/null; fi
 git -C $W checkout -q --detach $(git -C /repo rev-parse HEAD); git -C $W checkout -- .
 for P in "$@"; do for X in A B; do
-  D=/tmp/seed_out/$P; [ -f $D/$X.diff ] || continue
-  out=/verif/seeded/$P-$X; mkdir -p $out
+  D=$SRC/$P; [ -f $D/$X.diff ] || continue
+  Y=$X; for m in $SEED_RENAME; do [ "${m%%:*}" = "$X" ] && Y=${m##*:}; done
+  out=/verif/seeded/$P-$Y; mkdir -p $out
   git -C $W checkout -- .; 
-  if ! git -C $W apply $D/$X.diff 2>$out/apply.err; then echo "$P-$X: patch does not apply"; rm -rf $out; continue; fi
-  cmake --build $W/_build -j8 >$out/build.log 2>&1 || { echo "$P-$X: build failed"; git -C $W checkout -- .; continue; }
+  if ! git -C $W apply $D/$X.diff 2>$out/apply.err; then echo "$P-$Y: patch does not apply"; rm -rf $out; continue; fi
+  cmake --build $W/_build -j8 >$out/build.log 2>&1 || { echo "$P-$Y: build failed"; git -C $W checkout -- .; continue; }
   ctest --test-dir $W/_build -j8 --timeout 900 >$out/ctest.log 2>&1; t=$?
   demo=$D/demo_$X.cpp
   build="g++ -std=c++11 -g -O1 -DASL_STATIC -I$W/include $demo $W/_build/lib/libasls.a -lpthread -ldl -o /tmp/confirm_demo"
   $build >$out/demo_build.log 2>&1; timeout 120 /tmp/confirm_demo >$out/demo_with_change.log 2>&1; d1=$?
   git -C $W checkout -- .; cmake --build $W/_build -j8 >>$out/build.log 2>&1
   $build >>$out/demo_build.log 2>&1; timeout 120 /tmp/confirm_demo >$out/demo_clean.log 2>&1; d2=$?
-  echo "$P-$X: tests_rc=$t demo_with_change_rc=$d1 demo_clean_rc=$d2"
+  echo "$P-$Y: tests_rc=$t demo_with_change_rc=$d1 demo_clean_rc=$d2"
   if [ $t -eq 0 ] && [ $d1 -ne 0 ] && [ $d2 -eq 0 ]; then
     cp $D/$X.diff $out/patch.diff; cp $demo $out/demo.cpp
     python3 - "$P" "$X" "$out" "$build" <<'PY'
 import json,sys
 P,X,out,build=sys.argv[1:5]
-meta=json.load(open('/tmp/seed_out/%s/meta.json'%P)).get(X,{})
-json.dump({'property':P,'seed':X,'what':meta.get('what'),'function':meta.get('function'),'files':meta.get('files'),'needs':meta.get('needs'),
+import os
+meta=json.load(open(os.environ.get('SEED_SRC','/tmp/seed_out')+'/%s/meta.json'%P)).get(X,{})
+json.dump({'property':P,'seed':os.path.basename(out).split('-')[1],'what':meta.get('what'),'function':meta.get('function'),'files':meta.get('files'),'needs':meta.get('needs'),
  'confirmed':{'worktree':'scratch worktree of /repo HEAD (removed afterwards)','tests':'ctest: 28/28 pass with the change','demo_with_change':'non-zero exit','demo_clean':'exit 0',
  'demo_build':build.replace('/tmp/confirm_wt','<worktree>')},'detected_by':None},open(out+'/meta.json','w'),indent=1)
 PY
